@@ -26,7 +26,7 @@ import numpy as np
 import xarray as xr
 
 from . import meshgen as mg
-from .common import FILL, grid_of, result
+from .common import grid_of, result
 
 import uxarray as ux
 import uxarray.constants as _uxconst
